@@ -48,3 +48,10 @@ impl Analyzer
 /// Verification hooks (see mutability.rs).
 #[cfg(feature = "verif")]
 pub use mutability::verif_hooks as verif_mutability_hooks;
+
+/// Verification hook: the syntax pass on its own.
+#[cfg(feature = "verif")]
+pub fn verif_syntax_analyze(declaration: Declaration) -> Declaration
+{
+	syntax::analyze(declaration)
+}
